@@ -163,6 +163,13 @@ def check_case(ctx: Ctx, c: Dict[str, Any], k: int = 0) -> None:
         tc = gt.coords(align_corners=gt.align_corners()).unsqueeze(0)
         o = guarded("SampleImage", lambda: sm(tc, data.unsqueeze(0).unsqueeze(0)))
         cmp_lin("SampleImage", o)
+    # ... and with target points given w.r.t. every axes of the target grid (explicit 'axes')
+    for ax in (Axes.WORLD, Axes.GRID, Axes.CUBE, Axes.CUBE_CORNERS):
+        sm = guarded("SampleImage", lambda: SampleImage(target=gt, source=gs, axes=ax, sampling="linear", padding=pad), axes=ax.value)
+        if sm is not None:
+            pts = gt.points(ax).reshape(1, *tshape, D)
+            o = guarded("SampleImage", lambda: sm(pts, data.unsqueeze(0).unsqueeze(0)), axes=ax.value)
+            cmp_lin("SampleImage", o, axes=ax.value)
     # sampling on its own grid returns the image unchanged
     o = guarded("Image.sample[own grid]", lambda: img.sample(gs, padding=pad))
     if o is not None and max_err(o.tensor(), data.unsqueeze(0)) > 1e-5:
